@@ -30,6 +30,10 @@ def t_entry(chk, ix, entry):
     rules_parser.check_machine(chk, ix, entry, ("P2",), tier=chk.tier)
 
 
+def t_alive(chk, ix):
+    rules_parser.check_entry_can_succeed(chk, ix)
+
+
 def t_struct(chk, ix):
     rules_parser.check_keyword_table(chk, ix)
     rules_parser.check_line_numbers(chk, ix)
@@ -41,7 +45,7 @@ def t_struct(chk, ix):
 
 
 def run(chk, ix, tier):
-    run_parallel(chk, [(t_entry, (e,)) for e in ("parse_feature", "parse_scenario", "parse_steps")] + [(t_struct, ())])
+    run_parallel(chk, [(t_entry, (e,)) for e in ("parse_feature", "parse_scenario", "parse_steps")] + [(t_struct, ()), (t_alive, ())])
     chk.rules.pop("E4", None)
     chk.require_instances("P2", 3)
     chk.require_instances("P1", 60)
@@ -51,3 +55,4 @@ def run(chk, ix, tier):
     chk.require_instances("P7", 2)
     chk.require_instances("P8", 6)
     chk.require_instances("P9", 11)
+    chk.require_instances("P10", 4)
